@@ -202,6 +202,11 @@ def _lookup(T, lk, fu, nw, sk):
         q = select(x for x in T if x.id == 1)
         if fu: q = q.for_update(nw, sk)
         return q[:][0]
+    if lk == 4:
+        # a query rendered with SELECT DISTINCT: the lock must still be requested (or the query refused), never silently dropped
+        q = select(x for x in T if x.id == 1).distinct()
+        if fu: q = q.for_update(nw, sk)
+        return q[:][0]
     q = T.select(lambda x: x.a > 0)
     if fu: q = q.for_update(nowait=nw, skip_locked=sk)
     return q.first()
@@ -261,6 +266,8 @@ def _program(db, lk, fu, nw, sk, ser, opt, imm, wr, mid, pre, rival):
         elif pre == 2: _lookup(T, lk, False, False, False)
         elif pre == 4: select(x for x in T)[:]
         elif pre == 5: _lookup(T, (lk + 1) % 4, True, False, False)
+        if fu and (pre in (1, 4) or (pre == 2 and lk != 3)):          # (style 3 filters on `a`: its unlocked run OBSERVES a, and the re-fetch then rightly raises)
+            ROW['a'] += 100          # a rival commits a change between the unlocked load and the locking lookup
         obs['marks']['lookup'] = n0 = rec.n
         try:
             o = _lookup(T, lk, fu, nw, sk)
@@ -271,6 +278,7 @@ def _program(db, lk, fu, nw, sk, ser, opt, imm, wr, mid, pre, rival):
         obs['marks']['lookup_end'] = rec.n
         obs['got'] = o is not None
         obs['in_fu'] = o in cache.for_update
+        if o is not None: obs['val'], obs['row_at_lookup'] = o._vals_.get(T.a), ROW['a']      # (read without touching the read bits)
         if rival: obs['rival'] = _run_rival(db, rival)
         if mid == 3: o.a = o.a + 1          # write, commit(), lock it again (the status 'updated' outlives the commit, the lock does not)
         if mid == 1 or mid == 3 or mid == 5:
@@ -330,6 +338,9 @@ def _judge_common(obs, why, fu, nw, sk, opt, ser, wr, mid, pre, updates, crit_te
     if obs['typeerror']:
         why.append('TypeError for a valid option combination'); return False
     if not obs.get('got'): why.append('lookup returned nothing'); return False
+    # a locking lookup returns the row as it is NOW, also for an object this session had loaded earlier without a lock
+    if fu and obs.get('val') != obs.get('row_at_lookup'):
+        why.append('locking lookup left the stale value %r in the object, the row has %r' % (obs.get('val'), obs.get('row_at_lookup')))
     # L5 / P4
     locked0 = fu or pre == 5          # (pre 5, thorough tier: a locking lookup of another style came first in this session)
     if obs['in_fu'] != locked0: why.append('object in cache.for_update = %r, locked by a lookup = %r' % (obs['in_fu'], locked0))
@@ -752,8 +763,22 @@ def pg_lk3(fu: bool, nw: bool, sk: bool, ser: bool, opt: bool, imm: bool, wr: bo
 E_HARNESSES.append('pg_lk3')
 
 
+def pg_lk4(fu: bool, nw: bool, sk: bool, ser: bool, opt: bool, imm: bool, wr: bool, mid: int, pre: int) -> bool:
+    """
+    pre: fu or not (nw or sk)
+    pre: 0 <= mid <= MID_MAX and 0 <= pre <= PRE_MAX
+    pre: THOROUGH or mid != 3 or pre == 0
+    post: _
+    """
+    return ok(_e('pg', 4, fu, nw, sk, ser, opt, imm, wr, mid, pre))
+E_HARNESSES.append('pg_lk4')
+
+
 # == K-harnesses: the small decision functions, fully traced with symbolic booleans ==========================================
 K_HARNESSES = []
+
+
+IDLE = [False]
 
 
 def _k_session(kind, ser, opt, imm, first, lockreq, mid_commit):
@@ -764,6 +789,12 @@ def _k_session(kind, ser, opt, imm, first, lockreq, mid_commit):
     from pony.orm import db_session, commit
     db = _reset(kind)
     marks = {}
+    if IDLE[0]:
+        import pony
+        mode = pony.MODE
+        pony.MODE = 'INTERACTIVE'          # outside a db_session pony only talks to the database in interactive mode
+        try: db._exec_sql('SELECT 0')      # leaves an idle cache (no transaction, nothing modified) in local.db2cache
+        finally: pony.MODE = mode
     with db_session(serializable=ser, optimistic=opt, immediate=imm):
         if first:
             db._exec_sql('SELECT 1')
@@ -782,6 +813,21 @@ def k_sqlite_mode(ser: bool, opt: bool, imm: bool, first: bool, lockreq: bool, m
     """
     post: _
     """
+    return _k_sqlite(ser, opt, imm, first, lockreq, mid_commit)
+
+
+def k_sqlite_mode_idle(ser: bool, opt: bool, imm: bool, first: bool, lockreq: bool, mid_commit: bool) -> bool:
+    """An idle session cache (a read made outside any db_session, interactive mode) exists when the session starts: the session's
+    options must still take effect before its first statement.
+
+    post: _
+    """
+    IDLE[0] = True
+    try: return _k_sqlite(ser, opt, imm, first, lockreq, mid_commit)
+    finally: IDLE[0] = False
+
+
+def _k_sqlite(ser, opt, imm, first, lockreq, mid_commit):
     try:
         db, m = _k_session('sqlite', ser, opt, imm, first, lockreq, mid_commit)
     except Exception:
@@ -815,12 +861,28 @@ def k_sqlite_mode(ser: bool, opt: bool, imm: bool, first: bool, lockreq: bool, m
     if not [e for e in main if e.op == 'commit']: why.append('no commit')
     return ok(not why)
 K_HARNESSES.append('k_sqlite_mode')
+K_HARNESSES.append('k_sqlite_mode_idle')
 
 
 def k_pg_mode(ser: bool, opt: bool, imm: bool, first: bool, lockreq: bool, mid_commit: bool) -> bool:
     """
     post: _
     """
+    return _k_pg(ser, opt, imm, first, lockreq, mid_commit)
+
+
+def k_pg_mode_idle(ser: bool, opt: bool, imm: bool, first: bool, lockreq: bool, mid_commit: bool) -> bool:
+    """An idle session cache (a read made outside any db_session, interactive mode) exists when the session starts: the session's
+    options must still take effect before its first statement.
+
+    post: _
+    """
+    IDLE[0] = True
+    try: return _k_pg(ser, opt, imm, first, lockreq, mid_commit)
+    finally: IDLE[0] = False
+
+
+def _k_pg(ser, opt, imm, first, lockreq, mid_commit):
     try:
         db, m = _k_session('pg', ser, opt, imm, first, lockreq, mid_commit)
     except Exception:
@@ -849,6 +911,7 @@ def k_pg_mode(ser: bool, opt: bool, imm: bool, first: bool, lockreq: bool, mid_c
     if not [e for e in main if e.op == 'commit']: why.append('no commit')
     return ok(not why)
 K_HARNESSES.append('k_pg_mode')
+K_HARNESSES.append('k_pg_mode_idle')
 
 
 def k_builder(nw: bool, sk: bool, lim: bool, dialect: int) -> bool:
